@@ -68,6 +68,16 @@ let runner_case (s : sexp) : string =
         | L [A "single"; name] -> run_single rk verdict_single cap (ni name) tree
         | _ -> failwith "mode") in
       let owns = String.concat ";" (List.map (fun (s, t) -> Printf.sprintf "%d %s" (int_of_nat t.tid) (cnt_str (own s t))) (tests_of tree)) in
-      result_str r ^ "|" ^ owns
+      let ph_str = function
+        | PhSuiteSetup _ -> "ssetup" | PhSetup -> "setup" | PhBody -> "body"
+        | PhTeardown -> "teardown" | PhSuiteTeardown _ -> "steardown" in
+      let tev_str = function TvPhase ph -> ph_str ph | TvTally -> "tally" in
+      let traces = String.concat ";" (List.map (fun (s, t) ->
+        Printf.sprintf "%d:%s" (int_of_nat t.tid)
+          (if t.tskip then "" else String.concat "," (List.map tev_str (trace fw_init (test_steps s t))))) (tests_of tree)) in
+      let inprem = (match mode with
+        | A "inproc" -> ok_treeb InProcess cap tree
+        | _ -> ok_treeb Forked cap tree) in
+      result_str r ^ "|" ^ owns ^ "|" ^ traces ^ "|" ^ (if inprem then "1" else "0")
   | _ -> failwith "runner case"
 
